@@ -1,5 +1,6 @@
 """N1..N8: names, paths, listing (C05, C06, C10, C16)."""
 import ast
+import re
 
 from ..core.loader import AnalysisError, dotted, norm, own_nodes, where, enclosing_class, full
 from ..core import rx
@@ -1254,14 +1255,107 @@ def rule_X1(ctx):
     ctx.ob("X1", pt, "columns widen to the longest value (names are padded, never cut)", ok, "", inst="no-cut")
     tr = ctx.fn(ip, "InfoTree.print_tree", "X1")
     bi = ctx.fn(ip, "InfoTree.print_tree.build_inner", "X1")
-    t = full(bi)
-    ok = "for key, value in kv_pair" in t and "row_entries.append(RowEntry(tuple(content), depth))" in t and "if not isinstance(value, str):" in t \
-        and "content.append(str(value))" in t and "elif len(value) == 0:" in t
-    fors = [f for f in own_nodes(bi) if isinstance(f, ast.For)]
-    ok = ok and len(fors) == 1 and not any(isinstance(n, (ast.Break, ast.Continue, ast.Return)) for n in ast.walk(fors[0]))
-    ctx.ob("X1", bi, "every key of an item produces one row; nested values are expanded below it", ok, "", inst="tree-rows")
-    ok = "enumerate(item)" in t and "item.items()" in t and "isinstance(item, Sequence) or isinstance(item, Mapping)" in t
-    ctx.ob("X1", bi, "sequences are rendered element by element, mappings key by key", ok, "", inst="tree-kinds")
+    from .streams import _walk as _wx
+    from .util import evaluator as _evx
+    bcfg = ctx.cfg(bi, "X1")
+    item = bi.args.args[0].arg
+    loops = [f for f in own_nodes(bi) if isinstance(f, ast.For) and isinstance(f.target, ast.Tuple) and len(f.target.elts) == 2]
+    ok, det = len(loops) == 1, "key/value loop not found"
+    kinds_ok, kdet = False, "source of the key/value pairs not understood"
+    if ok:
+        lp_ = bcfg.loop_of(loops[0])
+        kv, vv = loops[0].target.elts[0].id, loops[0].target.elts[1].id
+        K, V = kv + "~", vv + "~"
+        label = [f"opaque(f'{{{kv}}}:')", f"{K} + ':'"]
+        seen_cases = set()
+        for kind, path, edge in bcfg.iteration_paths(lp_):
+            if kind == "exit" and len(path) == 1:
+                continue
+            pr = _wx(ctx, bi, bcfg, path)
+            if kind != "back":
+                ok, det = False, "an entry can end the rendering of its siblings"
+                continue
+            is_str = None
+            empty = None
+            for s_ in pr.steps:
+                if s_.kind == "test" and s_.label in ("true", "false") and s_.ast is not None and hasattr(s_.ast, "test"):
+                    tst, neg = s_.ast.test, False
+                    while isinstance(tst, ast.UnaryOp) and isinstance(tst.op, ast.Not):
+                        tst, neg = tst.operand, not neg
+                    tk = (s_.label == "true") != neg
+                    if isinstance(tst, ast.Call) and norm(tst.func) == "isinstance" and norm(tst.args[0]) == vv and norm(tst.args[1]) == "str":
+                        if is_str is not None and is_str != tk:
+                            is_str = "contradiction"
+                        elif is_str is None:
+                            is_str = tk
+                    from .sem import emptiness_by as _ebx
+                    e_ = _ebx(s_.ast.test, lambda x: isinstance(x, ast.Name) and x.id == vv)
+                    if e_ is not None:
+                        empty = (s_.label == "true") == e_
+            if is_str == "contradiction":
+                continue
+            rows_ = [(c, e) for c, e, st in calls_on(pr) if isinstance(c.func, ast.Name) and c.func.id == "RowEntry"]
+            recs = [(c, e) for c, e, st in calls_on(pr) if isinstance(c.func, ast.Name) and c.func.id == bi.name]
+            if len(rows_) != 1:
+                ok, det = False, f"{len(rows_)} rows for one key"
+                continue
+            rk = _evx(ctx, bi, rows_[0][1]).ev(rows_[0][0]).key()
+            m_ = re.fullmatch(r"RowEntry\(tuple\((.*)\),(.*)\)", rk)
+            if m_ is None or m_.group(2).replace("~", "") != "depth":
+                ok, det = False, f"row built as `{rk[:120]}`"
+                continue
+            cells = m_.group(1)
+            lab = next((l for l in label if cells.startswith(l)), None)
+            if lab is None:
+                ok, det = False, f"row does not start with the key label: `{cells[:80]}`"
+                continue
+            rest = cells[len(lab):].lstrip(",")
+            if is_str is True:
+                seen_cases.add("str")
+                good = rest in (f"str({V})", V) and not recs
+            elif is_str is False and empty is True:
+                seen_cases.add("empty")
+                good = rest == "'None'" and len(recs) == 1
+            elif is_str is False and empty is False:
+                seen_cases.add("nested")
+                good = rest == "" and len(recs) == 1
+            else:
+                good = False
+            if good and recs:
+                rk2 = _evx(ctx, bi, recs[0][1]).ev(recs[0][0]).key().replace("~", "")
+                good = rk2 in (f"{bi.name}({vv},1 + depth,{kv},row_entries)", f"{bi.name}({vv},depth=1 + depth,prev_key={kv},row_entries=row_entries)")
+                if not good:
+                    det = f"nested value expanded as `{rk2[:120]}`"
+            if not good:
+                ok = False
+                det = det or f"value case str={is_str} empty={empty}: row cells `{cells[:100]}`, {len(recs)} recursive call(s)"
+        ok = ok and seen_cases == {"str", "empty", "nested"}
+        if ok is False and not det:
+            det = f"cases seen {sorted(seen_cases)}"
+        # where the pairs come from: sequences by index (prev_key[i]), mappings by items()
+        from .sem import decision_table as _dt, path_tests as _ptx
+        src_terms = {}
+        for p in run_paths(ctx, bi, rule="X1", limit=4000):
+            for s_ in p.steps:
+                if s_.kind == "for" and s_.ast is loops[0]:
+                    tests = _ptx(p)
+                    seqv = mapv = None
+                    for tst, taken in tests:
+                        parts = tst.values if isinstance(tst, ast.BoolOp) and isinstance(tst.op, ast.Or) else [tst]
+                        for part in parts:
+                            if isinstance(part, ast.Call) and norm(part.func) == "isinstance" and norm(part.args[0]) == item:
+                                if norm(part.args[1]) == "Sequence" and len(parts) == 1:
+                                    seqv = taken
+                                if norm(part.args[1]) == "Mapping" and len(parts) == 1:
+                                    mapv = taken
+                    it_key = _evx(ctx, bi, s_.env).ev(loops[0].iter).key()
+                    src_terms[(seqv, mapv)] = it_key
+        seq_src = [v for (sq, mp), v in src_terms.items() if sq is True]
+        map_src = [v for (sq, mp), v in src_terms.items() if sq is False]
+        kinds_ok = bool(seq_src) and bool(map_src) and all("enumerate(" + item + ")" in v and "prev_key" in v for v in seq_src) and all(v == f"{item}.items()" for v in map_src)
+        kdet = "" if kinds_ok else f"pairs come from {src_terms}"
+    ctx.ob("X1", bi, "every key of an item produces one row; nested values are expanded below it", ok, "" if ok else det, inst="tree-rows")
+    ctx.ob("X1", bi, "sequences are rendered element by element, mappings key by key", kinds_ok, kdet, inst="tree-kinds")
     t = full(tr)
     ok = "if i > self.max_rows:" in t and "exceeded {self.max_rows} lines" in t
     ctx.ob("X1", tr, "output is cut only after max_rows rows, with a notice", ok, "", inst="row-cap")
@@ -1279,7 +1373,85 @@ def rule_X1(ctx):
     ctx.ob("X1", gi, "a leaf's info = header (safe name, type) + its itemised fields", ok, "", inst="leaf-info")
     ig = ctx.fn("smpl_extract/util/dataclass.py", "itemize_general", "X1")
     pv = ctx.fn("smpl_extract/util/dataclass.py", "process_value", "X1")
-    t1, t2 = full(ig), full(pv)
-    ok = "k.name: process_value(getattr(self, k.name)) for k in fields(self)" in t1 and "tuple((process_value(v) for v in self))" in t1 \
-        and "k: process_value(v) for k, v in self.items()" in t1 and "result = str(value)" in t2 and "value.itemize()" in t2
-    ctx.ob("X1", ig, "itemisation keeps every field / element / key and renders scalars with str()", ok, "", inst="itemize_general")
+    from .sem import decision_table, path_return
+    from ..core.symexec import run_paths as _rpx
+
+    def isinst(node, var, cls):
+        """True when node is isinstance(var, cls) (or a tuple containing only cls)"""
+        return isinstance(node, ast.Call) and norm(node.func) == "isinstance" and len(node.args) == 2 and norm(node.args[0]) == var and norm(node.args[1]) == cls
+
+    def isinst_any(node, var, classes):
+        """isinstance(var, (A, B)) as the disjunction of its members: handled by splitting in the recogniser set below"""
+        return isinstance(node, ast.Call) and norm(node.func) == "isinstance" and len(node.args) == 2 and norm(node.args[0]) == var \
+            and isinstance(node.args[1], ast.Tuple) and sorted(norm(e) for e in node.args[1].elts) == sorted(classes)
+
+    # ---- process_value: decision table over (has itemize, dataclass, str, stream, iterable)
+    v = pv.args.args[0].arg
+    atoms = {
+        "H": lambda n: True if (isinstance(n, ast.Call) and norm(n.func) == "hasattr" and len(n.args) == 2 and norm(n.args[0]) == v and norm(n.args[1]) == "'itemize'") else None,
+        "D": lambda n: True if (isinstance(n, ast.Call) and norm(n.func) == "is_dataclass" and len(n.args) == 1 and norm(n.args[0]) == v) else None,
+        "S": lambda n: True if isinst(n, v, "str") else None,
+        "I": lambda n: True if isinst(n, v, "IOBase") else None,
+        "T": lambda n: True if isinst(n, v, "Iterable") else None,
+    }
+    import copy as _copy
+
+    class _SplitIsinstance(ast.NodeTransformer):
+        # isinstance(x, (A, B)) -> isinstance(x, A) or isinstance(x, B)
+        def visit_Call(self, n):
+            self.generic_visit(n)
+            if isinstance(n.func, ast.Name) and n.func.id == "isinstance" and len(n.args) == 2 and isinstance(n.args[1], ast.Tuple) and n.args[1].elts:
+                return ast.BoolOp(op=ast.Or(), values=[ast.Call(func=n.func, args=[_copy.deepcopy(n.args[0]), e], keywords=[]) for e in n.args[1].elts])
+            return n
+
+    def table_of(fn, atoms_):
+        import sa.rules.sem as _sem
+        prs_ = [p for p in _rpx(ctx, fn, rule="X1", limit=4000) if p.end == "return"]
+        orig = _sem.path_tests
+
+        def pt(p):
+            return [(_SplitIsinstance().visit(_copy.deepcopy(t)), tk) for t, tk in orig(p)]
+
+        _sem.path_tests = pt
+        try:
+            return decision_table(prs_, atoms_)
+        finally:
+            _sem.path_tests = orig
+
+    names_, table, unknown = table_of(pv, atoms)
+    ok, det = not unknown, f"tests not understood: {unknown[:3]}"
+    for vals, feas in table.items():
+        a_ = dict(zip(names_, vals))
+        rets = sorted({path_return(p) for p in feas})
+        if a_["H"]:
+            want = f"{v}.itemize()"
+        elif a_["D"] or (not a_["S"] and not a_["I"] and a_["T"]):
+            want = f"itemize_general({v})"
+        else:
+            want = f"str({v})"
+        if rets != [want]:
+            ok, det = False, f"for {a_} the value is rendered as {rets}, expected {want}"
+    ctx.ob("X1", pv, "a value is itemised by its own itemize(), as a dataclass / collection through itemize_general, else rendered with str()", ok, "" if ok else det, inst="process_value")
+    # ---- itemize_general: decision table over (construct Container, dict, dataclass)
+    sv = ig.args.args[0].arg
+    atoms2 = {
+        "C": lambda n: True if isinst(n, sv, "Container") else None,
+        "M": lambda n: True if isinst(n, sv, "dict") else None,
+        "D": lambda n: True if (isinstance(n, ast.Call) and norm(n.func) == "is_dataclass" and len(n.args) == 1 and norm(n.args[0]) == sv) else None,
+    }
+    names2, table2, unknown2 = table_of(ig, atoms2)
+    ok2, det2 = not unknown2, f"tests not understood: {unknown2[:3]}"
+    for vals, feas in table2.items():
+        a_ = dict(zip(names2, vals))
+        rets = sorted({path_return(p) for p in feas})
+        if a_["C"]:
+            want = [f"{{_c0: process_value(_c1) for _c0, _c1 in sanitize_container({sv}).items()}}"]
+        elif a_["M"]:
+            want = [f"{{_c0: process_value(_c1) for _c0, _c1 in {sv}.items()}}"]
+        elif a_["D"]:
+            want = [f"{{_c0.name: process_value(getattr({sv}, _c0.name)) for _c0 in fields({sv})}}"]
+        else:
+            want = [f"tuple((process_value(_c0) for _c0 in {sv}))", f"tuple([process_value(_c0) for _c0 in {sv}])"]
+        if len(rets) != 1 or rets[0] not in want:
+            ok2, det2 = False, f"for {a_} the result is {rets}"
+    ctx.ob("X1", ig, "itemisation keeps every field / element / key and renders scalars with str()", ok2, "" if ok2 else det2, inst="itemize_general")
